@@ -116,6 +116,16 @@ def mutants_of(b, bc, codec, hexb, r, tier, targeted=True):
         else:
             for bit in range(8):
                 yield 'bitmap byte %d bit %d flipped' % (q - 4, bit), b[:q] + bytes([b[q] ^ (1 << bit)]) + b[q + 1:]
+    if hexb:
+        # pair-aligned replacements inside the hex bitmap (white space pairs, mixed pairs)
+        for q in range(4, 36, 2):
+            for pair in (b'  ', b'\t\t', b' 0', b'0 ', b'\n\n', b'0x', b'--'):
+                if tier == 'thorough' or (q + pair[0]) % 3 == 0:
+                    yield 'hex bitmap pair at %d := %r' % (q, pair), b[:q] + pair + b[q + 2:]
+        yield 'hex bitmap with two white space pairs', b[:6] + b'    ' + b[10:]
+    # ICC data that ends inside a tag: the last TLV is replaced by a tag prefix (message length prefix adjusted)
+    for q in sp['tlvlen'][-1:]:
+        pass
     for q in sp['typed']:
         for v in vals[:: (1 if tier == 'thorough' else 3)]:
             if b[q] != v:
@@ -199,6 +209,16 @@ def drive(args):
         add('valid message', b, repr(m)[:300])
         for desc, x in mutants_of(b, bc, codec, hexb, r, tier):
             add(desc, x, repr(m)[:300])
+    if lo == 0:
+        # ICC (binary TLV) elements whose content ends inside a tag or inside a length
+        iccbits = [b_ for b_ in bc if b_ != '1' and bc[b_].get('field_processor') == 'ICC']
+        for ib in iccbits[:1]:
+            for tail in (b'\x9f', b'\x5f', b'\x9f\x80', b'\x9f\x26', b'\x82', b'\x9f\x26\x05\x01', b'\xbf\x0c\x01\x00', b'\x1f', b'\xdf\x81'):
+                for head in (b'', b'\x82\x02\x01\x02'):
+                    m = {'MTI': '1240', 'DE' + ib: head + tail}
+                    e, b = isoc.do_dumps(m, codec, bc, hexb)
+                    if b is not None:
+                        add('ICC content %s' % (head + tail).hex(), b, repr(m))
     if with_random:
         r = drv.rng(seed, 'rnd', cfgspec, codec, hexb, lo)
         for desc, x in random_inputs(r, with_random, codec):
